@@ -5,6 +5,7 @@ import (
 	"fmt"
 	"os"
 	"runtime/pprof"
+	"strings"
 	"time"
 
 	"verif/core"
@@ -45,23 +46,50 @@ func run(r *core.Run) {
 	}
 	scs := scenarios(r.Thorough())
 	regression(e, scs)
+	if only := os.Getenv("C07_ONLY"); only != "" { // development aid: restrict to some scenarios (never exhaustive)
+		var keep []*scenario
+		for _, sc := range scs {
+			if strings.Contains(","+only+",", ","+sc.name+",") {
+				keep = append(keep, sc)
+			}
+		}
+		scs = keep
+		defer r.Exhaustive(false)
+	}
+	// Levels are explored round-robin over the scenarios (level 1 of every scenario, then level 2, ...),
+	// so that a run cut by the deadline still has balanced, completed bounds everywhere.
 	complete := true
 	bounds := map[string]interface{}{}
 	var descr []string
-	for _, sc := range scs {
-		depth := sc.depthQ
+	var searches []*search
+	maxDepth := 0
+	target := func(sc *scenario) int {
 		if r.Thorough() {
-			depth = sc.depthT
+			return sc.depthT
 		}
+		return sc.depthQ
+	}
+	for _, sc := range scs {
 		descr = append(descr, sc.describe())
-		if r.Expired() {
-			complete = false
-			bounds[sc.name] = 0
-			continue
+		searches = append(searches, e.newSearch(sc))
+		if d := target(sc); d > maxDepth {
+			maxDepth = d
 		}
-		done, ok := e.bfs(sc, depth)
-		bounds[sc.name] = done
-		if !ok {
+	}
+	for d := 1; d <= maxDepth+1; d++ {
+		for _, s := range searches {
+			switch t := target(s.sc); {
+			case d <= t:
+				s.level(false)
+			case d == t+1:
+				s.level(true) // final probe sweep over the states found by the last level
+			}
+		}
+	}
+	for _, s := range searches {
+		s.finish(target(s.sc))
+		bounds[s.sc.name] = s.depth
+		if !(s.exhausted || (s.depth >= target(s.sc) && s.swept)) {
 			complete = false
 		}
 	}
@@ -105,7 +133,7 @@ func replay(r *core.Run, raw json.RawMessage) {
 	if t.hasTwin {
 		fmt.Printf("twin     %s\n         %s\n         storage %s -> %s\n", t.twin.res, t.twin.dump, t.twin.pre.s, t.twin.post.s)
 	}
-	for _, f := range t.judge(sc, o) {
+	for _, f := range x.judge(sc, path, o, &t) {
 		r.Violation(f.sig, f.what, mkCase(sc, path, o, &t))
 	}
 }
